@@ -254,11 +254,16 @@ func nbtDecode(fmtName string, input []byte, target string, class string) (ev nb
 						err = errors.New("a used StringifiedMessage holds another text than a fresh one after decoding the same document")
 					}
 				}
+				if err == nil {
+					ev.Nodes = countSnbt(string(v))
+				}
 			case "rawstring":
 				var v nbt.RawMessage
 				name, err = mk().Decode(&v)
 				if err == nil {
-					_ = v.String()
+					if txt := v.String(); !strings.HasPrefix(txt, "<Invalid") {
+						ev.Nodes = countSnbt(txt)
+					}
 				}
 			case "field": // the packet-field wrapper (network format only)
 				var v any
@@ -813,7 +818,7 @@ func nbtSpecRun(env *vk.Env) []nbtVec {
 
 func nbtRule(env *vk.Env) {
 	env.Cov.Rule = "S: TLC checks EncDoc against the independently written DecDoc on a bounded universe of documents (all 12 tags, empty lists of every element type, lists of lists/arrays/compounds, extreme values, odd keys) x {file, network}: round trip with junk behind, every strict prefix fails. A: each universe document is fed (with trailing bytes) to the real decode entry points; B: random deep documents, random Go values of generated type expressions, mutated documents. Every recorded call is judged by NBT_Trace (DecDoc / EncodeGo evaluated by TLC). Distinct/non-trivial = distinct (kind, target/type class, root tag or mutation class) combinations."
-	env.Assume = []string{"string bytes are opaque (modified UTF-8 validity is not part of the property)", "empty-list element types are not observable after decoding into Go values and are compared loosely there (byte-exact carriers check them)", "interface-typed values are the dynamic types the decoder itself produces (int8..int64, float32/64, string, []byte, []int32, []int64, homogeneous []any, map[string]any) and are compared by dynamic type and value", "signalling float32 NaN patterns are not generated: Go's float32<->float64 conversions (reflect SetFloat/Float, used by the library for typed destinations and by the harness projection) set the quiet bit; all other NaN payloads are compared bit for bit", "declared lengths in generated hostile inputs are capped at 2^24"}
+	env.Assume = []string{"string bytes are opaque (modified UTF-8 validity is not part of the property)", "empty-list element types are not observable after decoding into Go values and are compared loosely there (byte-exact carriers check them)", "interface-typed values are the dynamic types the decoder itself produces (int8..int64, float32/64, string, []byte, []int32, []int64, homogeneous []any, map[string]any) and are compared by dynamic type and value", "signalling float32 NaN patterns are not generated: Go's float32<->float64 conversions (reflect SetFloat/Float, used by the library for typed destinations and by the harness projection) set the quiet bit; all other NaN payloads are compared bit for bit", "declared lengths in generated hostile inputs are capped at 2^24", "struct fields that another field of the same name hides (embedding; the encoding/json rule, decided by NBTMap.tla's Dominant) hold their zero value: a hidden field is not encoded, so only its zero value can come back from a round trip"}
 }
 
 func runC01(env *vk.Env) {
@@ -1187,6 +1192,31 @@ func nbtTooBigAt(fmtName string, in []byte, limit uint32) bool {
 
 // c03Event: C03 is about totality, not byte-exact re-emission: carriers are judged as plain decodes here
 var memlogLast uint64
+
+// countSnbt: a lower bound of the number of values a text holds (elements separated by commas outside quotes): what a
+// carrier that prints the document claims to have decoded
+func countSnbt(t string) int {
+	if t == "" {
+		return 0
+	}
+	n, q := 1, byte(0)
+	for i := 0; i < len(t); i++ {
+		c := t[i]
+		switch {
+		case q != 0:
+			if c == '\\' {
+				i++
+			} else if c == q {
+				q = 0
+			}
+		case c == '"' || c == '\'':
+			q = c
+		case c == ',':
+			n++
+		}
+	}
+	return n
+}
 
 func c03Event(ev nbtDecEv) nbtDecEv {
 	if os.Getenv("VERIF_MEMLOG") != "" {
